@@ -69,8 +69,13 @@ R13 == TMap(Nm(84, 3), S3, TRUE)
 TI8 == TScalar("int", <<73, 56>>)   TU8 == TScalar("int", <<85, 56>>)   TU64 == TScalar("int", <<85, 54, 52>>)
 W1 == TStruct(Nm(87, 1), <<Field(fa, TI8, FALSE, FALSE), Field(fb, TU8, FALSE, FALSE), Field(fc, TU64, TRUE, FALSE)>>, RMap(<<>>))
 
+\* optional fields that Go binds to nilable non-pointer types (a slice, a link); unsigned map values and union members
+S8 == TStruct(Nm(83, 8), <<Field(fa, TInt, FALSE, FALSE), Field(fb, L1, TRUE, FALSE), Field(fc, TLink, TRUE, FALSE)>>, RMap(<<>>))
+M3 == TMap(Nm(77, 3), TU64, FALSE)
+U5 == TUnion(Nm(85, 5), <<TU64, TString>>, UKeyed(<<<<117>>, <<115>>>>))
+
 Types == <<S1, S2, S3, S4, S5, L1, L2, M1, U1, U2, U3, E1, E2, M2, R1, R2, R3, R4, R5, R6, R7, R8, R9, S6, S7, U4,
-           R10, R11, R12, R13, W1>>
+           R10, R11, R12, R13, W1, S8, M3, U5>>
 
 \* ---- inhabitants (typed values in canonical type-level form)
 IntVals == {Scalar("int", <<0, 1>>), Scalar("int", <<0, 2>>)}
